@@ -136,6 +136,8 @@ def build_cases(tier, seed):
     cases += E.programs()
     from .. import smallprogs as SP
     cases += list(SP.stream(seed + 1, None))   # exhaustive name-confusion shapes
+    from .. import declshapes as DS
+    cases += list(DS.stream())                 # declaration-level shapes (aliases, cycles, duplicates, order, modes, ladders)
     rng = random.Random(seed + 7)
     seeds = [(i, t) for i, k, t in cases if k == "seed"]
     for j in range(n_ty):
